@@ -18,9 +18,11 @@ func init() {
 			"(R1) operator tables are total and consistent: each of the 18 operator constants has an arm in Where, at least one name in operatorNames, and an arm in the complies method of the condition type Where routes it to (routing by finite-valuation propagation); " +
 			"(R2) parser progress and guards: no loop iteration in ParseQuery/parseAndOr/extractSnippets without consuming input, snippet and condition indexing is guarded, every clause keyword of ParseQuery (other than where) terminates a root where-clause, escape handling is applied before quote handling in every tokenizer iteration; " +
 			"(R3) byte-offset slicing of the ranged string with bound i+1 happens only for ASCII characters. " +
-			"(R4) every constant-bound index/slice in the functions statically reachable from ParseQuery is dominated by a length test implying the bound. " +
+			"(R4) every constant-bound index/slice in the functions statically reachable from ParseQuery is dominated by a length test implying the bound; " +
+			"(R5) in parseAndOr a condition list is closed successfully only when no operand is outstanding (expectingMore false) or at a closing parenthesis - a clause keyword or the end of input after and/or/not is not a terminator; " +
+			"(R6) the printers never re-tokenise or normalise already printed condition text (Split/Fields/Trim/Replace/case mapping on the result of a nested string()): separators inside quoted tokens are data. " +
 			"NOT decided (named in the statement, out of reach for a sound static rule): print->parse->print identity, same-records equivalence, backslash escape symmetry, conditions ending in a parenthesised group.",
-		Rules: []ruleFn{c11R1, c11R2, c11R3, c11R4},
+		Rules: []ruleFn{c11R1, c11R2, c11R3, c11R4, c11R5, c11R6},
 	})
 }
 
@@ -357,4 +359,143 @@ func c11R4(c *Ctx, r *Report) {
 	r.SetFloor(rule, 1)
 	boundsRule(c, r, rule, "parsing an arbitrary query string",
 		"database/query.ParseQuery")
+}
+
+// c11R5: terminators of a condition list.
+func c11R5(c *Ctx, r *Report) {
+	const rule = "C11-R5"
+	r.SetFloor(rule, 3)
+	fn := c.Func("database/query.parseAndOr")
+	if fn == nil {
+		r.Undecided(rule, "database/query.parseAndOr", "anchor function missing")
+		return
+	}
+	notExpecting := Guard{Name: "expectingMore == false", Truthy: false, Match: func(b ssa.Value) bool {
+		ph, ok := b.(*ssa.Phi)
+		return ok && ph.Comment == "expectingMore"
+	}}
+	closing := Guard{Name: `snippet == ")"`, Truthy: true, Match: func(b ssa.Value) bool {
+		bo, ok := b.(*ssa.BinOp)
+		if !ok || bo.Op != token.EQL {
+			return false
+		}
+		for _, o := range []ssa.Value{bo.X, bo.Y} {
+			if cst, ok := o.(*ssa.Const); ok && cst.Value != nil && cst.Value.Kind() == constant.String && constant.StringVal(cst.Value) == ")" {
+				return true
+			}
+		}
+		return false
+	}}
+	hasPhi := false
+	eachInstr(fn, func(in ssa.Instruction) {
+		if ph, ok := in.(*ssa.Phi); ok && ph.Comment == "expectingMore" {
+			hasPhi = true
+		}
+	})
+	if !hasPhi {
+		r.Undecided(rule, fnKey(fn)+" / expectingMore", "the operand-outstanding flag was not found")
+		return
+	}
+	k := 0
+	eachInstr(fn, func(in ssa.Instruction) {
+		ret, ok := in.(*ssa.Return)
+		if !ok || !isNilConst(retVal(ret, 1)) {
+			return
+		}
+		k++
+		p := ReachTargetAvoiding(fn, ret, []Guard{notExpecting, closing}, nil)
+		r.Check(p == nil, rule, fmt.Sprintf("%s / success return #%d", fnKey(fn), k),
+			`reached only with no operand outstanding or at ")"`,
+			"the condition list can be closed successfully while an operand is still expected (after and/or/not): a keyword-named key is taken for a clause, or a dangling operator is accepted", append([]string{c.Pos(ret.Pos())}, c.pathString(p)...)...)
+	})
+}
+
+// c11R6: printers concatenate; they do not re-tokenise printed text.
+func c11R6(c *Ctx, r *Report) {
+	const rule = "C11-R6"
+	lossy := map[string]bool{}
+	for _, n := range []string{"Split", "SplitN", "SplitAfter", "SplitAfterN", "Fields", "FieldsFunc", "TrimSpace", "Trim", "TrimLeft", "TrimRight", "TrimFunc",
+		"ToLower", "ToUpper", "ToTitle", "Title", "Map", "Replace", "ReplaceAll"} {
+		lossy["strings."+n] = true
+	}
+	n := 0
+	for _, fn := range c.FuncsIn("database/query") {
+		name := fn.Name()
+		if !(name == "string" && fn.Signature.Recv() != nil) && fnKey(fn) != "database/query.(*Query).Print" {
+			continue
+		}
+		// texts printed by nested conditions
+		var roots []ssa.Value
+		eachInstr(fn, func(in ssa.Instruction) {
+			if call, ok := in.(*ssa.Call); ok && call.Call.IsInvoke() && call.Call.Method.Name() == "string" {
+				roots = append(roots, call)
+			}
+		})
+		if len(roots) == 0 {
+			continue
+		}
+		n++
+		var findings []string
+		var walk func(f *ssa.Function, roots []ssa.Value, depth int)
+		walk = func(f *ssa.Function, roots []ssa.Value, depth int) {
+			tainted := map[ssa.Value]bool{}
+			for _, v := range roots {
+				tainted[v] = true
+			}
+			for changed := true; changed; {
+				changed = false
+				eachInstr(f, func(in ssa.Instruction) {
+					v, ok := in.(ssa.Value)
+					if !ok || tainted[v] {
+						return
+					}
+					hit := false
+					switch x := in.(type) {
+					case *ssa.Phi:
+						for _, e := range x.Edges {
+							hit = hit || tainted[e]
+						}
+					case *ssa.Slice:
+						hit = tainted[x.X]
+					case *ssa.Convert:
+						hit = tainted[x.X]
+					case *ssa.ChangeType:
+						hit = tainted[x.X]
+					}
+					if hit {
+						tainted[v] = true
+						changed = true
+					}
+				})
+			}
+			eachInstr(f, func(in ssa.Instruction) {
+				ci, ok := in.(ssa.CallInstruction)
+				if !ok {
+					return
+				}
+				cc := ci.Common()
+				cn := calleeName(cc)
+				for i, a := range cc.Args {
+					if !tainted[a] {
+						continue
+					}
+					if lossy[cn] && i == 0 {
+						findings = append(findings, fmt.Sprintf("%s applies %s to the printed text of a nested condition at %s", fnKey(f), cn, c.Pos(in.Pos())))
+					}
+					if callee := staticCallee(cc); callee != nil && depth > 0 && callee.Blocks != nil && c.isRepoFunc(callee) && i < len(callee.Params) {
+						walk(callee, []ssa.Value{callee.Params[i]}, depth-1)
+					}
+				}
+			})
+		}
+		walk(fn, roots, 2)
+		cons := fnKey(fn) + " / nested condition text is only concatenated"
+		if len(findings) > 0 {
+			r.Bad(rule, cons, findings[0]+": separators inside quoted tokens are data, the printed query no longer parses back to the same query", findings[1:]...)
+		} else {
+			r.OK(rule, cons, "no splitting/trimming/replacing/case mapping of nested printed text")
+		}
+	}
+	r.SetFloor(rule, 4)
+	_ = n
 }
